@@ -149,7 +149,8 @@ def first_col(layouts, s):
 
 # --------------------------------------------------------------------------------------------
 # spec predicates for the mutable structs
-def mutable_specs(layouts, s):
+def mutable_specs(layouts, s, opaque=False):
+    oq = '\t#[verifier::opaque]\n' if opaque else ''
     L = layouts[s]['fields']
     out = []
     w = out.append
@@ -189,7 +190,7 @@ def mutable_specs(layouts, s):
             w('\t\t&&& (self.%s is Some ==> self.%s->Some_0.wf(v) && self.%s->Some_0.len_spec() == self.len_spec())' % (f.name, f.name, f.name))
     w('\t}')
     # pushed_row(pre, post, bytes, off, v): post == pre with one decoded row appended (whole view)
-    w('\tpub open spec fn pushed_row(pre: Self, post: Self, b: Seq<u8>, off: int, v: Version) -> bool {')
+    w(oq + '\tpub open spec fn pushed_row(pre: Self, post: Self, b: Seq<u8>, off: int, v: Version) -> bool {')
     for f in L:
         lab = '/*[%s.%s]*/' % (s, f.name)
         if f.kind == 'validity':
@@ -207,7 +208,7 @@ def mutable_specs(layouts, s):
             w('\t\t&&& (!%s ==> post.%s == pre.%s)' % (ge(f.since), f.name, f.name))
     w('\t}')
     # pushed_null(pre, post, v)
-    w('\tpub open spec fn pushed_null(pre: Self, post: Self, v: Version) -> bool {')
+    w(oq + '\tpub open spec fn pushed_null(pre: Self, post: Self, v: Version) -> bool {')
     for f in L:
         if f.kind == 'validity':
             w('\t\t&&& post.validity is Some')
@@ -224,8 +225,24 @@ def mutable_specs(layouts, s):
             w('\t\t&&& (%s ==> post.%s is Some && %s::pushed_null(pre.%s->Some_0, post.%s->Some_0, v))' % (ge(f.since), f.name, f.ty, f.name, f.name))
             w('\t\t&&& (!%s ==> post.%s == pre.%s)' % (ge(f.since), f.name, f.name))
     w('\t}')
+    # extended_by_nulls(pre, post): every column of post is the column of pre followed only by nulls (whole view)
+    w(oq + '\tpub open spec fn extended_by_nulls(pre: Self, post: Self) -> bool {')
+    for f in L:
+        if f.kind == 'validity':
+            w('\t\t&&& (pre.validity is Some ==> post.validity is Some && col_ext_false(pre.validity->Some_0@, post.validity->Some_0@))')
+            w('\t\t&&& (pre.validity is None && post.validity is Some ==> col_ext_false(Seq::new(pre.len_spec(), |i: int| true), post.validity->Some_0@))')
+            w('\t\t&&& (pre.validity is None && post.validity is None ==> post.len_spec() == pre.len_spec())')
+        elif f.kind == 'prim' and not f.opt:
+            w('\t\t&&& col_ext_null(pre.%s@, post.%s@)' % (f.name, f.name))
+        elif f.kind == 'prim':
+            w('\t\t&&& (pre.%s is Some == post.%s is Some) && (pre.%s is Some ==> col_ext_null(pre.%s->Some_0@, post.%s->Some_0@))' % ((f.name,) * 5))
+        elif f.kind == 'sub' and not f.opt:
+            w('\t\t&&& %s::extended_by_nulls(pre.%s, post.%s)' % (f.ty, f.name, f.name))
+        else:
+            w('\t\t&&& (pre.%s is Some == post.%s is Some) && (pre.%s is Some ==> %s::extended_by_nulls(pre.%s->Some_0, post.%s->Some_0))' % (f.name, f.name, f.name, f.ty, f.name, f.name))
+    w('\t}')
     # row_eq(self, row, i): the transposed row holds the values at index i of every column
-    w('\tpub open spec fn row_eq(&self, row: transpose::%s, i: int) -> bool {' % s)
+    w(oq + '\tpub open spec fn row_eq(&self, row: transpose::%s, i: int) -> bool {' % s)
     for f in L:
         lab = '/*[%s.%s]*/' % (s, f.name)
         if f.kind == 'validity':
@@ -512,6 +529,37 @@ def immutable_roundtrip_lemmas(layouts, s):
             w('\t\tassert(e%d == off + %d); %s lemma_subrange_append(acc, b, off, e%d, e%d);' % (k - 1, f.off, proof, k - 1, k))
         w('\t\tassert(a%d == acc + b.subrange(off, e%d));' % (k, k))
     w('\t\tassert(e%d == off + %s::size_spec(v));' % (k, s))
+    w('\t}')
+    w('}')
+    return '\n'.join(out)
+
+
+def mutable_null_lemmas(layouts, s):
+    """extended_by_nulls is reflexive and absorbs one pushed_null step (generated proof; sub-structs by their own lemma)."""
+    L = layouts[s]['fields']
+    out = []
+    w = out.append
+    w('impl %s {' % s)
+    w('\tpub proof fn lemma_null_refl(a: Self)')
+    w('\t\tensures %s::extended_by_nulls(a, a),' % s)
+    w('\t{')
+    w('\t\treveal(%s::extended_by_nulls);' % s)
+    for f in L:
+        if f.kind == 'sub' and not f.opt:
+            w('\t\t%s::lemma_null_refl(a.%s);' % (f.ty, f.name))
+        elif f.kind == 'sub':
+            w('\t\tif a.%s is Some { %s::lemma_null_refl(a.%s->Some_0); }' % (f.name, f.ty, f.name))
+    w('\t}')
+    w('\tpub proof fn lemma_null_step(a: Self, m: Self, b: Self, v: Version)')
+    w('\t\trequires a.wf(v), m.wf(v), %s::extended_by_nulls(a, m), %s::pushed_null(m, b, v),' % (s, s))
+    w('\t\tensures %s::extended_by_nulls(a, b),' % s)
+    w('\t{')
+    w('\t\treveal(%s::extended_by_nulls); reveal(%s::pushed_null);' % (s, s))
+    for f in L:
+        if f.kind == 'sub' and not f.opt:
+            w('\t\t%s::lemma_null_step(a.%s, m.%s, b.%s, v);' % (f.ty, f.name, f.name, f.name))
+        elif f.kind == 'sub':
+            w('\t\tif %s { %s::lemma_null_step(a.%s->Some_0, m.%s->Some_0, b.%s->Some_0, v); }' % (ge(f.since), f.ty, f.name, f.name, f.name))
     w('\t}')
     w('}')
     return '\n'.join(out)
